@@ -45,7 +45,7 @@ def describe(tier):
         'bounds': 'lengths 0..8 exhaustive, 9..300 boundary+DRBG values',
         'assumptions': ['and/or/xor of different lengths are right-aligned (zero-extended on the left) in the model',
                         'negative integer indices, __setitem__ and int right operands are outside the property (DESIGN 4/C18)'],
-        'must_be_nonzero': ['ctor-nolength', 'concat', 'slice', 'half-left', 'half-int-left', 'compose-first'],
+        'must_be_nonzero': ['ctor-nolength', 'concat', 'slice', 'half-left', 'half-int-left', 'compose-first', 'aliasing-cases'],
     }
 
 
@@ -62,6 +62,7 @@ def units(tier, seed):
         us.append(('compose-n%d' % n, {'kind': 'compose', 'n': n}))
     us.append(('nolength', {'kind': 'nolength', 'kmax': 300}))
     us.append(('half', {'kind': 'half', 'nmax': 64}))
+    us.append(('aliasing', {'kind': 'aliasing'}))
     return us
 
 
@@ -392,6 +393,54 @@ def run_unit(p, tier, seed):
                         ck.eq(name + '-left', c, L, expL)
                         ck.eq(name + '-right', c, R, mm[w - h2:])
         r.sample({'op': 'half_bits / half_bits_not_padding', 'n': '0..%d' % p['nmax']})
+    elif kind == 'aliasing':
+        # what an operation hands out must not be a window into the Bitset: every returned list is modified in place (extended,
+        # reversed, emptied, overwritten) and the Bitset is observed again afterwards - every observation as before
+        def observe(b):
+            out = {}
+            for name, f in (('int', lambda: int(b)), ('len', lambda: len(b)), ('str', lambda: str(b)), ('list', lambda: list(b)), ('slice-all', lambda: list(b[:])),
+                            ('slice-rev', lambda: list(b[::-1])), ('iter', lambda: [x for x in b]), ('bytes', lambda: bytes(b)), ('first', lambda: b[0] if len(b) else None)):
+                try:
+                    out[name] = f()
+                except Exception as e:
+                    out[name] = 'raises ' + type(e).__name__
+            return out
+        getters = [('x[:]', lambda b: b[:]), ('x[0:len]', lambda b: b[0:len(b)]), ('x[::1]', lambda b: b[::1]), ('x[::-1]', lambda b: b[::-1]), ('x[1:]', lambda b: b[1:]),
+                   ('x[:-1]', lambda b: b[:-1]), ('list(x)', lambda b: list(b)), ('x[::2]', lambda b: b[::2])]
+        mutators = [('extend', lambda l: l.extend([True, False, True])), ('reverse', lambda l: l.reverse()), ('clear', lambda l: l.clear()),
+                    ('setitem', lambda l: l.__setitem__(0, not l[0]) if l else None), ('pop', lambda l: l.pop() if l else None), ('iadd', lambda l: l.__iadd__([True]))]
+        for n in range(0, 7):
+            for v in range(1 << n):
+                m = bits(v, n)
+                for gname, get in getters:
+                    for mname, mut in mutators:
+                        b = Bitset(v, n)
+                        before = observe(b)
+                        c = {'n': n, 'v': v, 'taken': gname, 'then': mname}
+                        core.note_case(c)
+                        r['evaluations'] += 1
+                        r['transitions'] += 2
+                        r['states'] += 1
+                        try:
+                            got = get(b)
+                            first = list(got) if isinstance(got, list) else got
+                            if isinstance(got, list):
+                                mut(got)
+                        except Exception as e:
+                            r.v(PROPERTY, 'Bitset', 'aliasing', 'raises', c, 'a list', core.exc_text(e))
+                            continue
+                        after = observe(b)
+                        r.count('aliasing-cases')
+                        if after != before:
+                            diff = sorted(k for k in before if before[k] != after[k])
+                            r.v(PROPERTY, 'Bitset', 'aliasing', 'bitset-changed-through-returned-object', c, 'observations unchanged', 'changed: %s' % diff)
+                            r.outcome('aliased')
+                        # a second take is again the model's answer, not the modified first one
+                        again = get(b)
+                        if isinstance(again, list) and isinstance(first, list) and again != first:
+                            r.v(PROPERTY, 'Bitset', 'aliasing', 'second-take-differs', c, first, again)
+        r.outcome('no-aliasing')
+        r.sample({'op': 'returned lists modified in place, Bitset observed again', 'n': '0..6', 'getters': [g for g, _ in getters], 'mutators': [m_ for m_, _ in mutators]})
     # every operation kind is an observed outcome class
     for k in list(r['counters']):
         if not k.startswith('suppressed'):
